@@ -44,6 +44,8 @@ def truth(test, h):
         return not truth(test.operand, h)
     if isinstance(test, ast.Constant):
         return bool(test.value)
+    if isinstance(test, ast.Name) and test.id in getattr(h, "bools", {}):
+        return h.bools[test.id]
     ex = expand_quantifier(test)
     if ex is not None:
         return truth(ex, h)
@@ -74,6 +76,19 @@ def run_block(stmts, h):
         elif isinstance(st, (ast.Expr, ast.Assign, ast.AugAssign, ast.AnnAssign, ast.Delete, ast.Assert)):
             if isinstance(st, ast.Expr) and isinstance(st.value, ast.Constant):
                 continue  # docstring
+            # a local that names a condition (`is_atom = isinstance(right, tokens.atom)`): remember its truth under this valuation
+            if isinstance(st, ast.Assign) and len(st.targets) == 1 and isinstance(st.targets[0], ast.Name) and (
+                    isinstance(st.value, (ast.BoolOp, ast.Compare)) or (isinstance(st.value, ast.UnaryOp) and isinstance(st.value.op, ast.Not))
+                    or (isinstance(st.value, ast.Call) and isinstance(st.value.func, ast.Name) and st.value.func.id == "isinstance")):
+                try:
+                    v = truth(st.value, h)
+                except Unrecognised:
+                    v = None
+                if v is not None:
+                    if not hasattr(h, "bools"):
+                        h.bools = {}
+                    h.bools[st.targets[0].id] = v
+                    continue
             h.stmt(st)
         elif isinstance(st, (ast.While, ast.For, ast.Try, ast.With)):
             sig = h.compound(st)
